@@ -233,6 +233,13 @@ ValidExact == res \in {"T", "F"} => (res = "T") = valid
 \*     the mechanism behind it: a set cache flag is never stale
 CacheSound == cache => valid
 
+\* For the large configurations: `res` and `op` only record the last call, so states that
+\* differ in them alone have the same futures; VIEW StateView merges them.  TLC evaluates
+\* invariants on new (merged) states only, therefore the answer is then judged on the
+\* transition instead (action properties are evaluated on every generated transition).
+StateView == <<directed, nodes, edges, nextN, nextE, root, eObj, valid, cache>>
+ValidExactA == [][res' \in {"T", "F"} => (res' = "T") = valid']_vars
+
 \* (2) re-rooting a valid tree at r
 Pairs(E) == {Unordered(E[e]) : e \in DOMAIN E}
 RerootKeeps ==
